@@ -207,6 +207,7 @@ MONITORED = [
     FMon("cth", lambda r, t: "%d %d %d" % (r.choice([0, 1, 5, 40, 100]), r.choice([5, 6]), r.randrange(2)), _u, update=False),
     FMon("thu", lambda r, t: "%d" % r.choice([5, 6]), lambda r, st: "%d %d" % (r.randrange(500), r.randrange(1, 40)), serde=False, reset=True),
     FMon("ctup", lambda r, t: "%d %d %d" % (r.choice([0, 1, 5, 40, 100]), r.choice([5, 6]), r.randrange(2)), _u, update=False),
+    FMon("caod", lambda r, t: "%d %d %d" % (r.choice([0, 1, 5, 20, 40]), r.choice([5, 6]), r.randrange(2)), _u, merge=True, update=False),
     FMon("tupu", lambda r, t: "%d" % r.choice([5, 6]), lambda r, st: "%d %d" % (r.randrange(500), r.randrange(1, 40)), serde=False, reset=True),
     FMon("kllstr", lambda r, t: "%d" % r.choice([8, 9, 12, 16]), _u, merge=True, query_mutates=True),
     FMon("req", lambda r, t: "%d %d" % (r.choice([4, 6, 8]), r.randrange(2)), _u, merge=True, query_mutates=True, compat=lambda c: c.split()[1]),
@@ -282,6 +283,34 @@ def deep_merge_history(rng, f):
     h.append("merge 0 3 %s" % coins(rng, 48))
     h.append("copy 0 4")
     for i in (0, 1, 2, 3, 4):
+        h.append("destroy %d" % i)
+    return h
+
+
+def moved_from_assign_history(rng, f):
+    """merge BY MOVE leaves its source moved-from (or holding moved-from items): it must still be assignable - copy assignment from a
+    sketch that holds fewer, as many, or more items than the source did (containers assign element-wise into what is left) -, usable
+    afterwards, and destructible"""
+    h = ["alloc " + rng.choice(["shared", "distinct"])]
+    l0, st0 = f.new(rng, tier="quick", oid=0)
+    cfg = l0.split(" ", 3)[3] if len(l0.split(" ", 3)) > 3 else ""
+    for oid in (0, 1, 2, 3):
+        c = cfg
+        if f.compat is None and not f.update:
+            ln, _ = f.new(rng, tier="quick", oid=oid)
+            c = ln.split(" ", 3)[3] if len(ln.split(" ", 3)) > 3 else ""
+        h.append(("new %s %d %s" % (f.name, oid, c)).rstrip())
+    if f.update:
+        for oid, n in ((0, rng.choice([20, 60])), (1, 5), (2, rng.choice([2, 5, 25])), (3, rng.choice([1, 80]))):
+            for _ in range(n):
+                h.append(f.upd(rng, oid, st0))
+    h.append("mergemv 1 0 %s" % coins(rng, 48))
+    h.append("cassign 0 %d" % rng.choice([2, 3]))
+    h.append("query 0 %d" % rng.randrange(40))
+    h.append("mergemv 1 2 %s" % coins(rng, 48))
+    h.append("massign 2 3")
+    h.append("query 2 %d" % rng.randrange(40))
+    for i in (0, 1, 2, 3):
         h.append("destroy %d" % i)
     return h
 
@@ -574,6 +603,8 @@ class LifePart(Part):
                 hs += [cached_view_history(rng, f) for _ in range(3 if tier == "quick" else 12)]
             if f.merge and f.update:
                 hs += [deep_merge_history(rng, f) for _ in range(2 if tier == "quick" else 8)]
+            if f.merge and isinstance(f, FMon):
+                hs += [moved_from_assign_history(rng, f) for _ in range(3 if tier == "quick" else 10)]
         return hs
 
     def oracle(self, hist, impl_out):
